@@ -3730,6 +3730,10 @@ class PyCdlib:
         dotdot.new_dotdot(vd, parent, vd.sequence_number(), rock_ridge,
                           vd.logical_block_size(), relocated, xa, file_mode,
                           time.time())
+        # The 'dotdot' record describes the parent directory, which may
+        # already be larger than one logical block.
+        if parent.parent is not None:
+            dotdot.data_length = parent.parent.data_length
         self._add_child_to_dr(dotdot)
         return dotdot
 
